@@ -1159,3 +1159,21 @@ Lemma handlers_multiset_lemma : forall W, wf_world W -> forall (hs : list (list 
 Proof.
   intros W HW hs required. apply (subs_multiset_lemma W HW hs required None). exact I.
 Qed.
+
+(* ================================================================== the extendors invariant, stated *)
+Lemma extendors_inv_lemma : forall W, wf_world W -> forall (h : list sop),
+  let r := run_reg W h in let L := run_led h in
+  (forall q, acount r q + lcount L q <= cnt_get (provided_cnt r) q)
+  /\ (forall i q, In q (ext_get (extendors r) i) <-> (0 < cnt_get (provided_cnt r) q /\ In i (iro W q)))
+  /\ (forall i, NoDup (ext_get (extendors r) i))
+  /\ (forall e q i, In e L -> snd (fst e) = Some q -> In i (iro W q) ->
+        0 < cnt_get (provided_cnt r) q /\ In q (ext_get (extendors r) i)).
+Proof.
+  intros W HW h r L. pose proof (run_inv W h HW) as I. fold r L in I.
+  destruct (inv_ext _ _ _ I) as (_ & Hn & Hi).
+  split; [apply (inv_cnt _ _ _ I)|]. split; [exact Hi|]. split; [exact Hn|].
+  intros e q i He Hq Hiq.
+  assert (Hpos : 0 < cnt_get (provided_cnt r) q).
+  { pose proof (inv_cnt _ _ _ I q). pose proof (lcount_pos L e q He Hq). lia. }
+  split; auto. apply Hi. auto.
+Qed.
